@@ -215,7 +215,10 @@ def run(ctx):
         "hangs": len(HANG),
         "tie": {"texts": len(OFF), "positions": n_pos, "raw_offset_equal": n_raw_eq, "offset_none_agrees_with_hover": n_none_eq,
                 "token_at_offset_equal": n_tok_eq, "completion_prepare_consistent": n_dot_ok, "samples": tie_samples},
-        "hover_agreement": {"checked": n_hov, "agree": n_hov_agree, "by_node": hov_kinds},
+        "hover_agreement": {"checked": n_hov, "agree": n_hov_agree, "by_node": hov_kinds,
+                            "pipeline_corpus_programs_hovered": len({r[1] for r in HOV if r[1].startswith("hovercorpus:")}),
+                            "late_resolved_programs_hovered": len({r[1] for r in HOV if r[1].startswith("late:")}),
+                            "distinct_types_hovered": len({r[6] for r in HOV})},
         "completion_validity": {"items_checked": n_cmp, "ok": n_cmp_ok, "skipped": skip_kinds, "by_kind": cmp_kinds},
         "samples": samples,
         "impl_oracle_failures": len(ctx.violations), "model_diffs": len([b for b in ctx.broken_ties if b[0] == "position-mapping correspondence"]),
